@@ -260,5 +260,12 @@ OthersClosed == \A p \in Party : \A l \in Links :
 DeadlineDecides == \A p \in Party : deadline[p] => result[p] # "-"
 NoHang == <>(\A p \in Party : result[p] # "-")
 \* the connection a party's negotiation settled on is what its connect() returns, whenever connect() is called
+\* "exactly one": when nothing is cut and no deadline has struck, an honest link that got established and everything that was
+\* written has arrived, both parties hold a link - however many other contenders (strangers, wrong-key peers, idle ones) there are
+Quiescent == \A l \in Links : /\ wire[l].toS = <<>> /\ wire[l].toR = <<>> /\ buf[l].S = "" /\ buf[l].R = ""
+                              /\ (~Honest(l) => (scriptPos[l] >= Len(Script[l]) \/ (st[l].S = "-" /\ st[l].R = "-")))
+HonestWins == (~AllowCut /\ Quiescent /\ started.S /\ started.R /\ ~deadline.S /\ ~deadline.R
+               /\ \E l \in Links : Honest(l) /\ (st[l].S # "-" \/ st[l].R # "-"))
+              => (result.S \in Links /\ result.R \in Links)
 WinnerReturned == \A p \in Party : (started[p] /\ Won(p) # "-") => result[p] = Won(p)
 ====
